@@ -857,16 +857,30 @@ class Engine:
             ctx.under_quantifier = True
             obj = Obj(cls, False, r, None, ctx)
             res = self.run_spec(ctx, cs.invariant, obj)
-            clauses = list(res.values()) if isinstance(res, dict) else list(res or [])
-            body = z3.And(*([lift_bool(c) for c in clauses] + ctx.pc))
+            items = list(res.items()) if isinstance(res, dict) else [("%d" % k_, c_) for k_, c_ in enumerate(res or [])]
             guard = z3.Or(*[self.tag_fn(r) == self.class_id(c) for c in cls.all_subclasses()])
-            pats = _uf_apps_on(body, r)
-            own = [p for p in pats if p.decl().name().startswith("fld!%s!" % cls.name)]
-            own_ids = set(p.get_id() for p in own)
-            inherited = [p for p in pats if p.decl().name().startswith("fld!") and p.get_id() not in own_ids]
-            pats = (own + inherited) or pats
-            out.append(("class-invariant:" + cls.name, "established by %s.__init__ (obligation inv#...)" % cls.name,
-                        z3.ForAll([r], z3.Implies(guard, body), patterns=pats[:8])))
+
+            def pats_of(body):
+                pats = _uf_apps_on(body, r)
+                own = [p for p in pats if p.decl().name().startswith("fld!%s!" % cls.name)]
+                own_ids = set(p.get_id() for p in own)
+                inherited = [p for p in pats if p.decl().name().startswith("fld!") and p.get_id() not in own_ids]
+                return (own + inherited) or pats
+
+            whole = z3.And(*([lift_bool(c) for _, c in items] + ctx.pc))
+            all_pats = pats_of(whole)
+            # one axiom per clause, triggered by the terms that the clause itself speaks about (a clause about the
+            # alignment is not instantiated because of a term about the bit length set, and vice versa)
+            for lab, c in items:
+                cb = lift_bool(c)
+                ps = pats_of(cb) or all_pats
+                out.append(("class-invariant:%s#%s" % (cls.name, lab),
+                            "established by %s.__init__ (obligation inv#%s.%s)" % (cls.name, cls.name, lab),
+                            z3.ForAll([r], z3.Implies(guard, cb), patterns=ps[:8])))
+            if ctx.pc:
+                out.append(("class-invariant:%s#side-conditions" % cls.name, "kind side conditions of the fields read by the "
+                            "invariant (enum ordinals in range, lengths non-negative)",
+                            z3.ForAll([r], z3.Implies(guard, z3.And(*ctx.pc)), patterns=all_pats[:8])))
             for k_, a_ in enumerate(ctx.axioms):
                 out.append(("class-invariant:%s/aux%d" % (cls.name, k_), "definition of a canonical filtered / mapped "
                             "sequence used by the invariant", a_))
